@@ -617,10 +617,18 @@ func checkC07(c *Ctx) Meta {
 	checkC07ScanOwn(c)
 	c.Rule("C07-STOP", "an interrupted window is never recorded as written: on the plotting path the branch taken when the stop channel fires returns a provably non-nil error (the C10-STOP rule: otherwise the checkpoint advances past a window that was never flushed and the completed table lacks its entries)", 3)
 	checkStopReturns(c, "C07-STOP")
+	c.Rule("C07-ORDER", "every window lands where the construction puts it: in both passes the window is written at the file offset derived from its own start (and from the map's data offset), synced before the checkpoint that accounts for it — the C10-ORDER rules, here as the premise of 'the completed table equals the construction' for multi-window and resumed plots", 12)
+	if pre := c.Fn("poc/engine/massdb/massdb.v1", "(*MassDBV1).prePlotWork"); pre != nil {
+		checkPlotOrder(c, "C07-ORDER", pre, "HashMapA")
+	}
+	if plot := c.Fn("poc/engine/massdb/massdb.v1", "(*MassDBV1).plotWork"); plot != nil {
+		checkPlotOrder(c, "C07-ORDER", plot, "HashMapB")
+	}
 	c.Rule("C07-READY", "only a complete table serves proofs: readiness is derived from map B's checkpoint (HashMapB.Progress, MassDBV1.Progress, NewWorkSpace, OpenDB — the C10-READY rules), so a space interrupted in the second pass is re-plotted, not mined", 4)
 	checkReadyRules(c, "C07-READY")
 	checkMapALoadedByProgressOnly(c, "C07-READY")
-	c.Rule("C07-FORWARD", "the keeper forwards proof and error of MassDB.GetProof unchanged and the miner drops entries whose Error is non-nil", 2)
+	c.Rule("C07-FORWARD", "the keeper forwards proof and error of MassDB.GetProof unchanged and the miner drops entries whose Error is non-nil; every proof task handed to the worker pool works on the space of its own loop iteration (no loop variable or per-loop struct shared between tasks)", 2)
+	checkLoopVarCapture(c, "C07-FORWARD", []string{pkgCapacity, pkgSkchia})
 
 	if f := c.MustFn("C07-VERIFY", "poc/engine/massdb/massdb.v1", "(*MassDBV1).GetProof"); f != nil {
 		vs := callsIn(f, "github.com/massnetorg/mass-core/poc.VerifyProof")
